@@ -226,3 +226,74 @@ func c14DaemonJob(shard, nshards int, base int32, tier string) Job {
 		return sr
 	}}
 }
+
+// c14DaemonFaultJob: a tear-down during which one netfilter command fails (every command index k), then the kubelet's retry
+// of the DEL: afterwards nothing of the pod is left, the other pod is untouched.
+func c14DaemonFaultJob(base int32) Job {
+	name := "daemon-hostport-del-with-failing-command"
+	return Job{Name: name, Weight: 2, Run: func(deadline time.Time) *ScenResult {
+		t0 := time.Now()
+		r := newCaseResult()
+		h, err := newCNIHarness(daemonConf{Defaults: []string{"a"}})
+		if err != nil {
+			panic(err)
+		}
+		defer h.close()
+		h.putPod(cniPod{Name: "hp-x", Networks: "a", HostPort: base + 17})
+		h.putPod(cniPod{Name: "hp-y", Networks: "a", HostPort: base + 18})
+		natOf := func(pod string) []string {
+			var out []string
+			for _, l := range strings.Split(h.kern.Save("nat"), "\n") {
+				if strings.Contains(l, pod+" hostport") {
+					out = append(out, l)
+				}
+			}
+			sort.Strings(out)
+			return out
+		}
+		setup := func() {
+			h.reset()
+			h.request("ADD", "x1", "hp-x", "eth0")
+			h.request("ADD", "y1", "hp-y", "eth0")
+		}
+		setup()
+		h.kern.ResetFault(0)
+		h.request("DEL", "x1", "hp-x", "eth0")
+		ncmd := h.kern.Count()
+		for k := 1; k <= ncmd; k++ {
+			if time.Now().After(deadline) {
+				r.exhausted = false
+				break
+			}
+			setup()
+			natY := natOf("hp-y")
+			h.kern.ResetFault(k)
+			c1, _ := h.request("DEL", "x1", "hp-x", "eth0")
+			h.kern.ResetFault(0)
+			c2, b2 := h.request("DEL", "x1", "hp-x", "eth0")
+			r.evals++
+			desc := fmt.Sprintf("ADD(x1), ADD(y1), DEL(x1) with netfilter command %d of %d failing (HTTP %d), DEL(x1) again (HTTP %d)", k, ncmd, c1, c2)
+			r.distinct[hashOf(k, c1, c2, natOf("hp-x"))] = true
+			if len(r.samples) < 3 {
+				r.samples = append(r.samples, desc)
+			}
+			if c2 != 200 {
+				r.violate("C14", name, "daemon", "retried-del-fails", "DEL", desc+": "+firstLines(b2, 1), []string{desc})
+				continue
+			}
+			if left := natOf("hp-x"); len(left) > 0 {
+				r.violate("C14", name, "daemon", "nat-rules-left-after-retried-teardown", "DEL", fmt.Sprintf("%s: %v", desc, left), []string{desc})
+			}
+			if fmt.Sprint(natOf("hp-y")) != fmt.Sprint(natY) {
+				r.violate("C14", name, "daemon", "other-pods-rules-changed", "DEL", desc, []string{desc})
+			}
+			if tryBind("tcp", base+17) != nil {
+				r.violate("C14", name, "daemon", "host-port-still-bound-after-teardown", "DEL", desc, []string{desc})
+			}
+			if _, err := os.Stat(filepath.Join("/var/lib/cni/galaxy/port", h.cidPfx+"x1")); err == nil {
+				r.violate("C14", name, "daemon", "state-file-left-after-teardown", "DEL", desc, []string{desc})
+			}
+		}
+		return r.toScen(name, t0, map[string]int{"commands": ncmd})
+	}}
+}
